@@ -5,7 +5,7 @@ import re
 import subprocess
 import vlib
 
-TARGETS = ["theories/Properties/C03.v"]
+TARGETS = ["theories/Properties/C03.v", "theories/Properties/C03_reach.v"]
 NSHARDS = 8
 TRUSTED = [
     "Coq 8.16.1 kernel; no axioms",
@@ -183,11 +183,15 @@ def replay(ctx, path):
     return 1 if fails else 0
 
 
-def crash_probe(ctx, pid, histories):
+BALANCE_KINDS = {"crash-granted-slots", "crash-granted-slots-interrupted-update", "crash-cost-more-than-request"}
+
+
+def crash_probe(ctx, pid, histories, only=None):
     """Used by C09's check: expiry and purge heights must also hold across a RESTART (what Gatekeeper::new reloads); the
     sequential tower histories have no restart, the crash harness does.  Runs the crash enumeration (quick tier) and
     reports, for property `pid`, a monitor failure in one of the expiry/purge histories `histories` that is not a
-    recorded C03 finding, with the crash run as replay."""
+    recorded C03 finding, with the crash run as replay.  `histories` None = every history; `only(kind, detail)` narrows
+    the failures that concern `pid` (C07: the classes about a user's balance)."""
     if not ctx.cargo_build(["crash"]):
         return
     r = crash_runs(ctx, "quick", "probe")
@@ -201,7 +205,9 @@ def crash_probe(ctx, pid, histories):
         if not m:
             continue
         kind, detail, case, hist = m.group(1), m.group(2), m.group(3), int(m.group(4))
-        if hist not in histories or vlib.match_known(known03, {"key": {"kind": kind}}) is not None:
+        if (histories is not None and hist not in histories) or vlib.match_known(known03, {"key": {"kind": kind}}) is not None:
+            continue
+        if only is not None and not only(kind, detail):
             continue
         ctx.add_violation(f"{pid}: after a restart the tower no longer treats the subscription as before ({kind}: {detail}) in crash run {case}",
                           {"kind": "crash-run", "case": case, "class": kind, "detail": detail, "replay_with": "./vcheck C03 --replay"},
